@@ -319,6 +319,12 @@ def linspace_int_array(e, st, hi, num, name='tstart'):
 
 @method('astype')
 def _astype(e, st, obj, args, kw, n):
+    if isinstance(obj, Arr):
+        dt = args[0] if args else kw.get('dtype')
+        if isinstance(dt, DT) and dt.tag == obj.ety:
+            e.note_assumed('ndarray.astype to a dtype of the same kind is treated as the identity (values mathematical)')
+            return obj
+        raise Unsupported('astype with conversion')
     if isinstance(obj, tuple) and obj and obj[0] == 'linspace':
         dt = args[0]
         if not (isinstance(dt, DT) and dt.tag == 'int'):
@@ -515,3 +521,18 @@ def _type(e, st, args, kw, n):
         if type(v) is t:
             return Builtin_(nm)
     raise Unsupported('type() of symbolic value')
+
+
+@builtin('numpy.array')
+def _np_array(e, st, args, kw, n):
+    """a concrete table (module-level constant such as FACTORIAL_LOOKUP_TABLE)"""
+    v = args[0]
+    if not isinstance(v, (list, tuple)) or not all(isinstance(x, int) and not isinstance(x, bool) for x in v):
+        raise Unsupported('numpy.array of non-constant data')
+    dt = kw.get('dtype', args[1] if len(args) > 1 else None)
+    a = e.new_array(st, 'table', [len(v)], 'int', dt if isinstance(dt, DT) and dt.tag == 'int' else DT('int', 'int64', 64, True), readonly=True)
+    t = z3.K(z3.IntSort(), z3.IntVal(0))
+    for k, x in enumerate(v):
+        t = z3.Store(t, k, z3.IntVal(x))
+    st.heap[a.base] = t
+    return a
